@@ -238,6 +238,7 @@ def t1_twin(case, sess: Session):
     from vlib import bootstrap
 
     text = case["text"]
+    yield_counts = []
 
     def run(parallel, jitter_seed):
         bootstrap.reset_globals()
@@ -268,8 +269,16 @@ def t1_twin(case, sess: Session):
         state = {"store": st, "active_graphs": list(case["order"])}
         old = sys.getswitchinterval()
         sys.setswitchinterval(1e-6)
+        from vlib.harness import line_yields, nested_codes
+        import contextlib as _cl
+        # for some parallel runs a thread switch is offered at every statement of the stage's own code (its per-graph thunks
+        # included), so that the workers interleave inside the loops, not only at the store reads
+        inj = line_yields(nested_codes(t1m.t1_propagate), prob=0.06, seed=jitter_seed) if (parallel and case.get("line_yields")) else _cl.nullcontext([0])
         try:
-            r = t1m.t1_propagate(NS(cfg=cfg), state, text)
+            with inj as injected:
+                r = t1m.t1_propagate(NS(cfg=cfg), state, text)
+            if parallel and case.get("line_yields"):
+                yield_counts.append(injected[0])
             # the same request again on the now warm stage cache (same process, same state): twice more
             again = [t1m.t1_propagate(NS(cfg=cfg), state, text) for _ in range(case.get("recalls", 0))]
         finally:
@@ -291,6 +300,9 @@ def t1_twin(case, sess: Session):
             return
         sess.evaluations += 1
         sess.count("t1_twins")
+        if yield_counts:
+            sess.count("t1_twins_with_line_yield_injection")
+            sess.count("t1_line_yields_injected", yield_counts.pop())
         sess.seen("t1_distinct_graph_visit_orders", (len(case["order"]), order_seen))
         mp = {k: v for k, v in rp.metrics.items() if k not in ("parallel_workers", "task_count")}
         if rp.graph_deltas != rs.graph_deltas:
@@ -337,7 +349,7 @@ def gen_t1_case(rng):
         for _ in range(rng.randint(1, 3)):
             order.insert(rng.randrange(len(order) + 1), rng.choice(order))
     return {"graphs": graphs, "text": text, "t1": t1, "order": order, "workers": rng.choice([2, 3, 8]), "perf_on": rng.random() < 0.5,
-            "metrics": rng.random() < 0.3, "repeats": 3, "recalls": rng.choice([0, 2, 2])}
+            "metrics": rng.random() < 0.3, "repeats": 3, "recalls": rng.choice([0, 2, 2]), "line_yields": rng.random() < 0.35}
 
 
 # ------------------------------------------------------------------------------ T2 twins
@@ -579,6 +591,7 @@ def main(tier: str, seed: int):
     sess.require("shard_merge_cases", 500)
     sess.require("shard_view_checks_2plus_views", 100)
     sess.require("t1_twins_with_warm_recalls", 20)
+    sess.require("t1_twins_with_line_yield_injection", 20)
     sess.require("shard_merge_cases_with_ids_redelivered_by_later_tier", 50)
     sess.finish()
 
